@@ -225,11 +225,12 @@ func (p *wkbParser) parseLineString(ctype CoordinatesType) (LineString, error) {
 	if err != nil {
 		return LineString{}, err
 	}
-	floats := make([]float64, int(n)*ctype.Dimension())
-
-	if len(p.body) < 8*len(floats) {
+	// Check the point count against the remaining input before allocating, so
+	// that a bogus count in a short input can't reserve a huge slice.
+	if uint64(len(p.body)) < uint64(n)*uint64(8*ctype.Dimension()) {
 		return LineString{}, wkbSyntaxError{"unexpected EOF"}
 	}
+	floats := make([]float64, int(n)*ctype.Dimension())
 
 	var seqData []byte
 	if p.no {
@@ -274,6 +275,11 @@ func (p *wkbParser) parsePolygon(ctype CoordinatesType) (Polygon, error) {
 	if n == 0 {
 		return Polygon{}.ForceCoordinatesType(ctype), nil
 	}
+	// Each ring occupies at least 4 bytes, so reject counts that the remaining
+	// input can't possibly satisfy before allocating.
+	if uint64(n)*4 > uint64(len(p.body)) {
+		return Polygon{}, wkbSyntaxError{"unexpected EOF"}
+	}
 	rings := make([]LineString, n)
 	for i := range rings {
 		rings[i], err = p.parseLineString(ctype)
@@ -291,6 +297,11 @@ func (p *wkbParser) parseMultiPoint(ctype CoordinatesType) (MultiPoint, error) {
 	}
 	if n == 0 {
 		return MultiPoint{}.ForceCoordinatesType(ctype), nil
+	}
+	// Each child geometry occupies at least 5 bytes, so reject counts that the
+	// remaining input can't possibly satisfy before allocating.
+	if uint64(n)*5 > uint64(len(p.body)) {
+		return MultiPoint{}, wkbSyntaxError{"unexpected EOF"}
 	}
 	pts := make([]Point, n)
 	for i := uint32(0); i < n; i++ {
@@ -314,6 +325,11 @@ func (p *wkbParser) parseMultiLineString(ctype CoordinatesType) (MultiLineString
 	if n == 0 {
 		return MultiLineString{}.ForceCoordinatesType(ctype), nil
 	}
+	// Each child geometry occupies at least 5 bytes, so reject counts that the
+	// remaining input can't possibly satisfy before allocating.
+	if uint64(n)*5 > uint64(len(p.body)) {
+		return MultiLineString{}, wkbSyntaxError{"unexpected EOF"}
+	}
 	lss := make([]LineString, n)
 	for i := uint32(0); i < n; i++ {
 		geom, err := p.inner()
@@ -336,6 +352,11 @@ func (p *wkbParser) parseMultiPolygon(ctype CoordinatesType) (MultiPolygon, erro
 	if n == 0 {
 		return MultiPolygon{}.ForceCoordinatesType(ctype), nil
 	}
+	// Each child geometry occupies at least 5 bytes, so reject counts that the
+	// remaining input can't possibly satisfy before allocating.
+	if uint64(n)*5 > uint64(len(p.body)) {
+		return MultiPolygon{}, wkbSyntaxError{"unexpected EOF"}
+	}
 	polys := make([]Polygon, n)
 	for i := uint32(0); i < n; i++ {
 		geom, err := p.inner()
@@ -357,6 +378,11 @@ func (p *wkbParser) parseGeometryCollection(ctype CoordinatesType) (GeometryColl
 	}
 	if n == 0 {
 		return GeometryCollection{}.ForceCoordinatesType(ctype), nil
+	}
+	// Each child geometry occupies at least 5 bytes, so reject counts that the
+	// remaining input can't possibly satisfy before allocating.
+	if uint64(n)*5 > uint64(len(p.body)) {
+		return GeometryCollection{}, wkbSyntaxError{"unexpected EOF"}
 	}
 	geoms := make([]Geometry, n)
 	for i := uint32(0); i < n; i++ {
